@@ -95,6 +95,29 @@ partial def parseTree (cs : List Char) : Option (GTree × List Char) :=
     if ds.isEmpty then none else
     (String.ofList ds).toNat?.map fun n => (.leaf n, cs.dropWhile Char.isDigit)
 
+/-- multifurcating tree text: `7` or `(A,B,C,…)` -/
+partial def parseMTree (cs : List Char) : Option (MTree × List Char) :=
+  match cs with
+  | '(' :: r =>
+    let rec children (r : List Char) (acc : List MTree) : Option (List MTree × List Char) :=
+      match parseMTree r with
+      | some (c, ',' :: r2) => children r2 (acc ++ [c])
+      | some (c, ')' :: r2) => some (acc ++ [c], r2)
+      | _ => none
+    (children r []).map fun p => (.node p.1, p.2)
+  | _ =>
+    let ds := cs.takeWhile Char.isDigit
+    if ds.isEmpty then none else
+    (String.ofList ds).toNat?.map fun n => (.leaf n, cs.dropWhile Char.isDigit)
+
+def showTree : GTree → String
+  | .leaf i => toString i
+  | .node l r => "(" ++ showTree l ++ "," ++ showTree r ++ ")"
+
+def showOutcome : DistOutcome → String
+  | .belowRandom => "belowRandom" | .zeroDivision => "zeroDivision" | .infinite => "infinite"
+  | .notANumber => "notANumber" | .finite => "finite"
+
 /-- assign the recorded traces to the inner nodes in the order `_progressive_align` calls `align_optimal`
 (post-order) -/
 def labelTree : GTree → List PTrace → List ((List Nat × List Nat) × PTrace) × List PTrace
@@ -214,6 +237,17 @@ def step (st : St) (line : String) : St × String :=
         (st, showE showPTrace (readCigar ((firstRef written).getD 0) (printOps ops)))
     | some (_, _, _, .error e) => (st, "ERR:" ++ e.toString)
     | none => (st, "bad-op")
+  | ["asbin", tree] =>
+    match parseMTree tree.toList with
+    | some (m, []) => match asBinary m with
+      | some b => (st, "ok " ++ showTree b)
+      | none => (st, "unmodelled")
+    | _ => (st, "bad-op")
+  | ["dist", S, Saa, Sbb, ps, L, no, ne, go, ge] =>
+    match S.toInt?, Saa.toInt?, Sbb.toInt?, ps.toInt?, L.toNat?, no.toNat?, ne.toNat?, go.toInt?, ge.toInt? with
+    | some S, some Saa, some Sbb, some ps, some L, some no, some ne, some go, some ge =>
+      (st, "ok " ++ showOutcome (distOutcome ⟨S, Saa, Sbb, ps, L, no, ne, go, ge⟩))
+    | _, _, _, _, _, _, _, _, _ => (st, "bad-op")
   | ["msa", g, seqs, tree, traces] =>
     match g.toNat?, parseCodeSeqs seqs, parseTree tree.toList,
           (if traces == "_" then some [] else (traces.splitOn "|").mapM parsePTrace) with
